@@ -317,3 +317,20 @@ Definition src_row_ok (r : srcrow) : bool :=
 Definition src_ok (wavelength_method_ok : bool) (rows : list srcrow) : bool :=
   wavelength_method_ok && forallb src_row_ok rows
   && forallb (fun a => accessor_eqb a AWavelength || existsb (fun r => accessor_eqb (s_acc r) a) rows) all_accessors.
+
+(* ---- linear-time form of wf_on for a table whose rows are listed in the order of the cases (what the
+   harness emits); sound for wf_on by Proofs/C07_Policy.v: wf_aligned_sound ---- *)
+Fixpoint wf_aligned (cs : list pcase) (t : ptable) : bool :=
+  match cs, t with
+  | [], [] => true
+  | c :: cr, (c', o) :: tr => pcase_eqb c c' && spec_ok c o && wf_aligned cr tr
+  | _, _ => false
+  end.
+Fixpoint cases_aligned (cs : list pcase) (t : ptable) : bool :=
+  match cs, t with
+  | [], [] => true
+  | c :: cr, (c', _) :: tr => pcase_eqb c c' && cases_aligned cr tr
+  | _, _ => false
+  end.
+Definition tminus (t : ptable) (excl : list pcase) : ptable :=
+  filter (fun r => negb (existsb (pcase_eqb (fst r)) excl)) t.
